@@ -9,5 +9,5 @@ mkdir -p .build evidence replays
 ./ocaml/build.sh
 [ -f harness/Cargo.lock ] || cp /repo/Cargo.lock harness/Cargo.lock
 (cd harness && timeout 3000 cargo build --release --offline && timeout 3000 cargo build --offline)
-[ -f shim/kshim.c ] && gcc -O2 -shared -fPIC -o .build/kshim.so shim/kshim.c -ldl -lpthread || true
+[ -f shim/kshim.c ] && gcc -O2 -fno-delete-null-pointer-checks -shared -fPIC -o .build/kshim.so shim/kshim.c -ldl -lpthread || true
 echo setup done
